@@ -451,6 +451,63 @@ impl<T: Val + Ord> Val for BTreeSet<T> {
     }
 }
 
+/// `[T]` (the slice implementation of `Serializable`, written through a reference); read back as `Vec<T>`
+#[derive(PartialEq, Clone, Debug)]
+pub struct SliceOf<T>(pub Vec<T>);
+impl<T: Serializable> Serializable for SliceOf<T> {
+    fn write_into<W: ByteWriter>(&self, target: &mut W) {
+        let s: &[T] = self.0.as_slice();
+        s.write_into(target);
+    }
+}
+impl<T: Deserializable> Deserializable for SliceOf<T> {
+    fn read_from<R: ByteReader>(source: &mut R) -> Result<Self, DeserializationError> {
+        Ok(SliceOf(source.read()?))
+    }
+}
+impl<T: Val> Val for SliceOf<T> {
+    fn ty() -> String {
+        format!("slice({})", T::ty())
+    }
+    fn parse(p: &mut P) -> Self {
+        SliceOf(Vec::<T>::parse(p))
+    }
+    fn show(&self) -> String {
+        self.0.show()
+    }
+    fn gen(rng: &mut Rng, sz: usize) -> String {
+        Vec::<T>::gen(rng, sz)
+    }
+}
+
+/// `str` (the `Serializable` implementation of the unsized string slice); read back as `String`
+#[derive(PartialEq, Clone, Debug)]
+pub struct StrRef(pub String);
+impl Serializable for StrRef {
+    fn write_into<W: ByteWriter>(&self, target: &mut W) {
+        self.0.as_str().write_into(target)
+    }
+}
+impl Deserializable for StrRef {
+    fn read_from<R: ByteReader>(source: &mut R) -> Result<Self, DeserializationError> {
+        Ok(StrRef(String::read_from(source)?))
+    }
+}
+impl Val for StrRef {
+    fn ty() -> String {
+        "strref".into()
+    }
+    fn parse(p: &mut P) -> Self {
+        StrRef(String::parse(p))
+    }
+    fn show(&self) -> String {
+        self.0.show()
+    }
+    fn gen(rng: &mut Rng, sz: usize) -> String {
+        String::gen(rng, sz)
+    }
+}
+
 // ------------------------------------------------------------------------------------ field elements
 const M64: u128 = 0xFFFFFFFF00000001;
 const M62: u128 = 4611624995532046337;
@@ -957,6 +1014,25 @@ impl Val for TraceInfo {
         "traceinfo".into()
     }
     fn parse(p: &mut P) -> Self {
+        // `n(width,length)` = TraceInfo::new, `m(width,length,xmeta)` = TraceInfo::with_meta
+        if p.eat(b'n') {
+            p.expect(b'(');
+            let w = usize::parse(p);
+            p.expect(b',');
+            let l = usize::parse(p);
+            p.expect(b')');
+            return TraceInfo::new(w, l);
+        }
+        if p.eat(b'm') {
+            p.expect(b'(');
+            let w = usize::parse(p);
+            p.expect(b',');
+            let l = usize::parse(p);
+            p.expect(b',');
+            let meta = p.xbytes();
+            p.expect(b')');
+            return TraceInfo::with_meta(w, l, meta);
+        }
         p.expect(b'(');
         let m = usize::parse(p);
         p.expect(b',');
@@ -1069,7 +1145,14 @@ impl Val for Commitments {
             let c = Dg::<H>::parse(p).0;
             p.expect(b',');
             let f = undg(Vec::<Dg<H>>::parse(p));
-            Commitments::new::<H>(t, c, f)
+            let mut cm = Commitments::new::<H>(t, c, f);
+            // optional fifth component: digests appended with Commitments::add
+            if p.eat(b',') {
+                for d in undg(Vec::<Dg<H>>::parse(p)) {
+                    cm.add::<H>(&d);
+                }
+            }
+            cm
         });
         p.expect(b')');
         c
@@ -1792,6 +1875,18 @@ fn gen_lines<T: Val>(rng: &mut Rng, n: usize, sz: usize, emit: &mut dyn FnMut(St
         if bytes.len() > 300_000 {
             continue;
         }
+        // every proper prefix of a small encoding, and the ends of a larger one
+        if i < 4 && bytes.len() <= 48 {
+            for cut in 0..bytes.len() {
+                emit(format!("dec {} {}", ty, hex(&bytes[..cut])));
+            }
+        } else if i < 4 {
+            for cut in [1usize, 2, bytes.len() - 2, bytes.len() - 1] {
+                if safe_to_decode::<T>(&bytes[..cut]) {
+                    emit(format!("dec {} {}", ty, hex(&bytes[..cut])));
+                }
+            }
+        }
         for _ in 0..(if bytes.len() > 4096 { 1 } else { 3 }) {
             let m = mutate(rng, &bytes);
             if safe_to_decode::<T>(&m) {
@@ -2133,6 +2228,10 @@ macro_rules! types {
             B64, B62, B128, QuadExtension<B64>, CubeExtension<B64>, QuadExtension<B62>, CubeExtension<B62>, QuadExtension<B128>,
             Vec<B64>, Vec<QuadExtension<B128>>, [B62; 4], Option<CubeExtension<B64>>, (B64, B128),
             D32, D24, E64, E62, Vec<D32>, Option<E64>, [E62; 2], Vec<D24>,
+            BTreeSet<u8>, BTreeSet<u32>, BTreeSet<usize>, BTreeSet<Bytes>, BTreeSet<(u8, u8)>, BTreeMap<u16, u16>,
+            BTreeMap<Option<u8>, ()>,
+            ((), [u8; 0]), Vec<[u16; 0]>, Vec<((),)>, Option<()>, BTreeMap<u8, ()>, [(); 3], Vec<Vec<()>>,
+            SliceOf<u16>, SliceOf<String>, SliceOf<()>, StrRef, Vec<StrRef>,
             FieldExtension, ProofOptions, TraceInfo, Context, Commitments, Queries, OodFrame, FriProof, Proof,
             Vec<TraceInfo>, Option<ProofOptions>, (Context, Queries)
         }
@@ -2151,6 +2250,22 @@ macro_rules! cb_names {
         fn dispatch_dec(name: &str, h: &str) -> Outcome {
             $( if name == <$t as Val>::ty() { return run_dec::<$t>(h); } )*
             Outcome::ok("bad-op")
+        }
+        /// decode one value of the named type from a reader that is shared with the steps before and after
+        fn dispatch_step<R: ByteReader>(name: &str, r: &mut R) -> Option<Result<String, DeserializationError>> {
+            $( if name == <$t as Val>::ty() { return Some(<$t as Deserializable>::read_from(r).map(|v| v.show())); } )*
+            None
+        }
+        fn dispatch_text_bytes(name: &str, text: &str) -> Option<Vec<u8>> {
+            $( if name == <$t as Val>::ty() {
+                let t = text.to_string();
+                return guarded(move || <$t as Val>::parse(&mut P::new(&t)).to_bytes()).ok();
+            } )*
+            None
+        }
+        fn dispatch_gen_text(name: &str, rng: &mut Rng, sz: usize) -> String {
+            $( if name == <$t as Val>::ty() { return <$t as Val>::gen(rng, sz); } )*
+            String::new()
         }
         fn dispatch_gen(name: &str, rng: &mut Rng, n: usize, sz: usize, emit: &mut dyn FnMut(String)) {
             $( if name == <$t as Val>::ty() { return gen_lines::<$t>(rng, n, sz, emit); } )*
@@ -2359,22 +2474,539 @@ fn gen_boundaries(quick: bool, emit: &mut dyn FnMut(String)) {
     emit("enc oodframe (f64,S(1,[1],[1],N),S[])".to_string());
     emit("enc oodframe (f64,N,N)".to_string());
 
+    // --- the other public constructors: TraceInfo::new / with_meta, Commitments::add
+    for w in [0u64, 1, 254, 255, 256] {
+        for l in [4u128, 8, 1 << 63, 12] {
+            emit(format!("enc traceinfo n({},{})", w, l));
+            emit(format!("enc traceinfo m({},{},x0102)", w, l));
+        }
+    }
+    emit(format!("enc traceinfo m(255,8,{})", xhex(&vec![1u8; 65535])));
+    emit(format!("enc traceinfo m(255,8,{})", xhex(&vec![1u8; 65536])));
+    emit(format!("enc context (f62,n(255,1073741824),(255,2,32,3,16,255))"));
+    for (k, d, maxok) in [("b32", d32.as_str(), 2047usize), ("e62", "[1,2,3,4]", 2114)] {
+        for added in [0usize, 1, 2] {
+            for total in [3usize, maxok, maxok + 1] {
+                let nf = total.saturating_sub(2 + added);
+                emit(format!("enc commitments ({},[{}],{},{},{})", k, d, d, rep(nf, d), rep(added, d)));
+            }
+        }
+    }
+    // --- Queries: Merkle node bytes across the 16-bit boundary (the length prefix is 32 bits wide), the real
+    //     Rescue hasher at the boundaries of its rate (rows of 1..17 elements)
+    for (nv, per) in [(10usize, 255usize), (11, 255), (255, 11), (86, 32)] {
+        emit(format!("enc queries (f64,b24,8,{},[[1,2]])", rep(nv, &rep(per, &d24))));
+        emit(format!("qparse (f64,b24,8,{},[[1,2]])", rep(nv, &rep(per, &d24))));
+    }
+    for cols in [1usize, 3, 4, 7, 8, 9, 11, 12, 13, 16, 17] {
+        emit(format!("qparse (f64,e64,6,[[[1,2,3,4]],[]],{})", rep(2, &rep(cols, "18446744069414584320"))));
+        emit(format!("qparse (q64,e64,6,[],{})", rep(3, &rep(cols, "(1,18446744069414584320)"))));
+    }
+
     // --- collections: length prefixes at the vint64 boundaries
-    let mut lens = vec![0usize, 1, 127, 128, 129, 16383, 16384, 16385];
+    let mut lens = vec![0usize, 1, 127, 128, 129, 255, 256, 16383, 16384, 16385, 65535, 65536, 65537];
+    lens.push(2097152);
     if !quick {
-        lens.extend([2097151usize, 2097152]);
+        lens.push(2097151);
     }
     for n in lens {
         emit(format!("enc bytes {}", xhex(&vec![0x61u8; n])));
         emit(format!("enc str {}", xhex(&vec![0x61u8; n])));
         emit(format!("enc opt(bytes) S{}", xhex(&vec![0x61u8; n])));
-        if n <= 16385 {
+        emit(format!("enc strref {}", xhex(&vec![0x61u8; n])));
+        if n <= 65537 {
+            // element counts across 2^7, 2^14 and 2^16 for every sequence implementation
             emit(format!("enc vec(u16) {}", rep(n, "513")));
+            emit(format!("enc slice(u16) {}", rep(n, "513")));
             emit(format!("enc vec(unit) {}", rep(n, "U")));
+            emit(format!("enc slice(unit) {}", rep(n, "U")));
+            emit(format!("enc vec(bool) {}", rep(n, "T")));
+        }
+        if n <= 16385 {
             let keys: Vec<String> = (0..n.min(70000)).map(|i| format!("{}", i)).collect();
             emit(format!("enc set(u16) [{}]", keys.join(",")));
         }
     }
+}
+
+// ------------------------------------------------------------------------------------ sequences on one reader
+/// decode the listed types one after the other from the same reader. Returns the verdicts up to the first
+/// failure (compared with the model) and a description of the reader afterwards (compared between readers):
+/// whether it reports more bytes and how many it still hands out.
+fn seq_with<R: ByteReader>(names: &[&str], r: &mut R, total: usize) -> (Vec<String>, String) {
+    let mut out = vec![];
+    for name in names {
+        let res = guarded(|| dispatch_step(name, r));
+        match res {
+            Err(_) => {
+                out.push("panic".to_string());
+                break;
+            },
+            Ok(None) => {
+                out.push("bad-op".to_string());
+                break;
+            },
+            Ok(Some(Ok(s))) => out.push(format!("ok {}", s)),
+            Ok(Some(Err(DeserializationError::UnexpectedEOF))) => {
+                out.push("eof".to_string());
+                break;
+            },
+            Ok(Some(Err(_))) => {
+                out.push("err".to_string());
+                break;
+            },
+        }
+    }
+    let state = guarded(|| {
+        let more = r.has_more_bytes();
+        let mut rest = 0usize;
+        while rest <= total + 4 && r.read_u8().is_ok() {
+            rest += 1;
+        }
+        format!("more={} rest={}", more, rest)
+    })
+    .unwrap_or_else(|_| "panic".to_string());
+    (out, state)
+}
+
+/// `seq <ty1;ty2;...> <hex>`
+fn run_seq(types: &str, h: &str) -> Outcome {
+    let names: Vec<&str> = types.split(';').collect();
+    let input = unhex(h);
+    let total = input.len();
+    let (reference, rstate) = seq_with(&names, &mut SliceReader::new(&input), total);
+    let all_ok = reference.len() == names.len() && reference.iter().all(|v| v.starts_with("ok"));
+    let mut o = Outcome::ok(if all_ok { format!("{}|{}", reference.join("|"), rstate) } else { reference.join("|") });
+    let (v, st) = seq_with(&names, &mut Cursor::new(&input[..]), total);
+    if v != reference || st != rstate {
+        o = o.fail("cursor.seq", format!("Cursor: {} [{}] SliceReader: {} [{}]", short(&v.join("|")), st, short(&reference.join("|")), rstate));
+    }
+    let l = total;
+    for (name, sizes) in [("chunk1", vec![1usize]), ("straddle", vec![3, 1, 2, 7, 5]), ("whole", vec![1 << 20]), ("mixed", vec![l % 5 + 1, 255, l % 11 + 1, 256, 257, 2])] {
+        let mut src = Chunked { data: &input, pos: 0, sizes, k: 0 };
+        let mut ad = ReadAdapter::new(&mut src);
+        let (v, st) = seq_with(&names, &mut ad, total);
+        if v != reference || st != rstate {
+            o = o.fail(
+                format!("readadapter.seq.{}", name),
+                format!("ReadAdapter({}): {} [{}] SliceReader: {} [{}]", name, short(&v.join("|")), st, short(&reference.join("|")), rstate),
+            );
+        }
+    }
+    o
+}
+
+/// `rstr <n> <hex>`: the provided methods `read_string(n)` / `read_vec(n)` of every reader
+fn run_rstr(n: &str, h: &str) -> Outcome {
+    let n: usize = n.parse().unwrap();
+    let input = unhex(h);
+    fn go<R: ByteReader>(r: &mut R, n: usize, total: usize) -> String {
+        let res = guarded(|| r.read_string(n));
+        match res {
+            Err(_) => "panic".into(),
+            Ok(Err(DeserializationError::UnexpectedEOF)) => "eof".into(),
+            Ok(Err(_)) => "err".into(),
+            Ok(Ok(s)) => {
+                let mut rest = 0usize;
+                while rest <= total + 4 && r.read_u8().is_ok() {
+                    rest += 1;
+                }
+                format!("ok {} {}", xhex(s.as_bytes()), rest)
+            },
+        }
+    }
+    let total = input.len();
+    let reference = go(&mut SliceReader::new(&input), n, total);
+    let mut o = Outcome::ok(reference.clone());
+    // read_vec must hand out the same bytes
+    let mut r2 = SliceReader::new(&input);
+    match (r2.read_vec(n), &reference) {
+        (Ok(v), r) if r.starts_with("ok") && !r.starts_with(&format!("ok {} ", xhex(&v))) => {
+            o = o.fail("reader.read_vec", "read_vec and read_string disagree")
+        },
+        _ => {},
+    }
+    if go(&mut Cursor::new(&input[..]), n, total) != reference {
+        o = o.fail("cursor.read_string", "Cursor and SliceReader disagree");
+    }
+    for (name, sizes) in [("chunk1", vec![1usize]), ("straddle", vec![3, 1, 2, 7, 5]), ("whole", vec![1 << 20])] {
+        let mut src = Chunked { data: &input, pos: 0, sizes, k: 0 };
+        let mut ad = ReadAdapter::new(&mut src);
+        if go(&mut ad, n, total) != reference {
+            o = o.fail(format!("readadapter.read_string.{}", name), "ReadAdapter and SliceReader disagree");
+        }
+    }
+    o
+}
+
+// ------------------------------------------------------------------------------------ decoder guards, wire forms
+fn le(v: u128, n: usize) -> Vec<u8> {
+    (0..n).map(|i| (v >> (8 * i)) as u8).collect()
+}
+fn cat(parts: &[&[u8]]) -> Vec<u8> {
+    parts.iter().flat_map(|p| p.iter().cloned()).collect()
+}
+fn blk(n: usize, len_bytes: usize, fill: u8) -> Vec<u8> {
+    cat(&[&le(n as u128, len_bytes), &vec![fill; n]])
+}
+
+/// hand-assembled encodings around every guard of the decoders (each length / count / tag at, below and above
+/// its limit, every enclosing prefix consistent with the component it describes), each also one byte short and
+/// one byte long
+fn gen_dec_boundaries(quick: bool, emit: &mut dyn FnMut(String)) {
+    fn put(emit: &mut dyn FnMut(String), ty: &str, b: Vec<u8>) {
+        emit(format!("dec {} {}", ty, hex(&b)));
+        if !b.is_empty() {
+            emit(format!("dec {} {}", ty, hex(&b[..b.len() - 1])));
+        }
+        let mut longer = b.clone();
+        longer.push(0);
+        emit(format!("dec {} {}", ty, hex(&longer)));
+    }
+    // tags
+    for b in [0u8, 1, 2, 3, 4, 127, 128, 255] {
+        put(emit, "bool", vec![b]);
+        put(emit, "fext", vec![b]);
+        put(emit, "opt(u8)", vec![b, 7]);
+        put(emit, "opt(opt(bool))", vec![b, 1, 1]);
+        put(emit, "opt(opt(bool))", vec![1, b, 1]);
+        put(emit, "opt(opt(bool))", vec![1, 1, b]);
+        put(emit, "opt(unit)", vec![b]);
+    }
+    // field elements: 0, 1, M-1, M, M+1, all ones
+    for (ty, m, n) in [("f64", M64, 8usize), ("f62", M62, 8), ("f128", M128, 16)] {
+        let max = if n == 16 { u128::MAX } else { (1u128 << 64) - 1 };
+        let vals = [0u128, 1, m - 1, m, m + 1, max, m / 2];
+        for v in vals {
+            put(emit, ty, le(v, n));
+        }
+        for a in [m - 1, m] {
+            for b in [0, m - 1, m] {
+                put(emit, &format!("q({})", ty), cat(&[&le(a, n), &le(b, n)]));
+                if ty != "f128" {
+                    put(emit, &format!("c({})", ty), cat(&[&le(1, n), &le(a, n), &le(b, n)]));
+                }
+            }
+        }
+        put(emit, &format!("vec({})", if ty == "f64" { "f64" } else { "f64" }), cat(&[&[5u8][..], &le(M64 - 1, 8), &le(M64, 8)]));
+    }
+    // digests: words at and above the modulus, all ones
+    for w in [0u128, M64 - 1, M64, M64 + 1, (1 << 64) - 1] {
+        put(emit, "e64", cat(&[&le(w, 8), &le(1, 8), &le(w, 8), &le(M64 - 1, 8)]));
+    }
+    for fill in [0u8, 0xff, 0x55, 0xaa, 0x3f, 0xc0] {
+        put(emit, "e62", vec![fill; 31]);
+        put(emit, "b24", vec![fill; 24]);
+        put(emit, "b32", vec![fill; 32]);
+    }
+    put(emit, "e62", cat(&[&le((M62 - 1) | (3 << 62), 8), &le(u64::MAX as u128, 8), &le(u64::MAX as u128, 8), &le((1 << 56) - 1, 7)]));
+    // vint64: every length class with the smallest / largest payload, over-long zero encodings
+    for k in 1..=8usize {
+        let tag = 1u128 << (k - 1);
+        for payload in [0u128, 1, (1u128 << (7 * k)) - 1, 1u128 << (7 * (k - 1))] {
+            let v = ((payload << 1 | 1) << (k - 1)) & ((1u128 << (8 * k)) - 1);
+            put(emit, "usize", le(v, k));
+        }
+        put(emit, "usize", le(tag, k));
+    }
+    for v in [0u128, 1, (1 << 56) - 1, 1 << 56, (1 << 64) - 1] {
+        put(emit, "usize", cat(&[&[0u8][..], &le(v, 8)]));
+    }
+    // TraceInfo
+    let ti = |m: u8, a: u8, r: u8, e: u8, ml: usize, have: usize| cat(&[&[m, a, r, e][..], &le(ml as u128, 2), &vec![0x11u8; have]]);
+    for (m, a) in [(0u8, 0u8), (1, 0), (255, 0), (1, 254), (1, 255), (254, 1), (254, 2), (255, 1), (128, 127), (128, 128), (0, 255)] {
+        for r in [0u8, 1, 255] {
+            put(emit, "traceinfo", ti(m, a, r, 3, 0, 0));
+        }
+    }
+    for e in [0u8, 1, 2, 3, 4, 31, 32, 33, 62, 63, 64, 65, 127, 128, 255] {
+        put(emit, "traceinfo", ti(3, 0, 0, e, 1, 1));
+        put(emit, "traceinfo", ti(3, 2, 0, e, 0, 0));
+    }
+    for ml in [0usize, 1, 2, 255, 256, 257, 65534, 65535] {
+        put(emit, "traceinfo", ti(255, 0, 0, 3, ml, ml));
+        if ml > 0 {
+            emit(format!("dec traceinfo {}", hex(&ti(255, 0, 0, 3, ml, 0))));
+        }
+    }
+    // ProofOptions: one parameter at a time
+    let ok = [28u8, 8, 0, 1, 8, 31];
+    let sweeps: [&[u8]; 6] = [
+        &[0, 1, 2, 254, 255],
+        &[0, 1, 2, 3, 4, 64, 127, 128, 129, 255],
+        &[0, 1, 31, 32, 33, 255],
+        &[0, 1, 2, 3, 4, 255],
+        &[0, 1, 2, 3, 4, 8, 15, 16, 17, 32, 255],
+        &[0, 1, 2, 3, 7, 127, 128, 254, 255],
+    ];
+    for (i, vals) in sweeps.iter().enumerate() {
+        for v in vals.iter() {
+            let mut o = ok;
+            o[i] = *v;
+            put(emit, "options", o.to_vec());
+        }
+    }
+    // Context: modulus length byte, trace length x blowup around 2^31 / 2^32
+    let m64 = le(M64, 8);
+    for ml in [0usize, 1, 7, 8, 9, 16, 254, 255] {
+        put(emit, "context", cat(&[&ti(3, 0, 0, 3, 0, 0), &[ml as u8][..], &vec![0xabu8; ml], &ok[..]]));
+    }
+    for e in 22..=34u8 {
+        for b in [2u8, 4, 8, 16, 32, 64, 128] {
+            let lde = e as u32 + b.trailing_zeros();
+            if (29..=34).contains(&lde) {
+                let mut o = ok;
+                o[1] = b;
+                emit(format!("dec context {}", hex(&cat(&[&ti(3, 0, 0, e, 0, 0), &[8u8][..], &m64, &o[..]]))));
+            }
+        }
+    }
+    // byte blocks with 16- and 32-bit length prefixes: Commitments, Queries, OodFrame, FriProof
+    for n in [0usize, 1, 255, 256, 65534, 65535] {
+        put(emit, "commitments", blk(n, 2, 0x22));
+    }
+    let sizes32 = [0usize, 1, 255, 256, 65535, 65536, 65537, 70001];
+    for (i, vl) in sizes32.iter().enumerate() {
+        for (j, pl) in sizes32.iter().enumerate() {
+            // all pairs with a small side, the diagonal and its neighbours
+            if *vl <= 256 || *pl <= 256 || i == j || i + 1 == j || j + 1 == i {
+                put(emit, "queries", cat(&[&blk(*vl, 4, 0x33), &blk(*pl, 4, 0x44)]));
+            }
+        }
+    }
+    let sizes16 = [0usize, 1, 255, 256, 65535];
+    for a in sizes16 {
+        for b in sizes16 {
+            for c in sizes16 {
+                let big = [a, b, c].iter().filter(|x| **x > 256).count();
+                if big <= 1 || (a == b && b == c) {
+                    put(emit, "oodframe", cat(&[&blk(a, 2, 0x55), &blk(b, 2, 0x66), &blk(c, 2, 0x77)]));
+                }
+            }
+        }
+    }
+    let layer = |vl: usize, pl: usize| cat(&[&blk(vl, 4, 0x88), &blk(pl, 4, 0x99)]);
+    for vl in [0usize, 1, 255, 256, 65535, 65536, 65537, 70001] {
+        for pl in [0usize, 1, 256, 65536] {
+            if vl <= 256 || pl <= 256 || vl == pl {
+                put(emit, "friproof", cat(&[&[1u8][..], &layer(vl, pl), &blk(16, 2, 1), &[0u8][..]]));
+                put(emit, "friproof", cat(&[&[2u8][..], &layer(3, 1), &layer(vl, pl), &blk(0, 2, 1), &[1u8][..]]));
+            }
+        }
+    }
+    for rl in [0usize, 1, 255, 256, 65534, 65535] {
+        for np in [0u8, 1, 62, 63, 64, 65, 255] {
+            if rl <= 256 || np <= 1 {
+                put(emit, "friproof", cat(&[&[0u8][..], &blk(rl, 2, 0xee), &[np][..]]));
+            }
+        }
+    }
+    for nl in [0usize, 1, 2, 254, 255] {
+        let mut b = vec![nl as u8];
+        for i in 0..nl {
+            b.extend(layer(1 + i % 3, i % 2));
+        }
+        b.extend(blk(8, 2, 0xcd));
+        b.push(3);
+        put(emit, "friproof", b);
+    }
+    // a count byte that promises more layers than follow, and fewer
+    put(emit, "friproof", cat(&[&[3u8][..], &layer(2, 2), &layer(2, 2), &blk(8, 2, 0xcd), &[0u8][..]]));
+    put(emit, "friproof", cat(&[&[1u8][..], &layer(2, 2), &layer(2, 2), &blk(8, 2, 0xcd), &[0u8][..]]));
+    // whole proofs assembled from consistent parts: 1 and 2 trace segments, each optional / variable part at
+    // its limits
+    let ctx = |aux: u8, e: u8, b: u8| {
+        let mut o = ok;
+        o[1] = b;
+        cat(&[&ti(3, aux, 0, e, 2, 2), &[8u8][..], &m64, &o[..]])
+    };
+    let q = |vl: usize, pl: usize| cat(&[&blk(vl, 4, 0x33), &blk(pl, 4, 0x44)]);
+    let ood = |a: usize, b: usize, c: usize| cat(&[&blk(a, 2, 0x55), &blk(b, 2, 0x66), &blk(c, 2, 0x77)]);
+    let fri = cat(&[&[1u8][..], &layer(5, 2), &blk(16, 2, 1), &[0u8][..]]);
+    let mut gkrs: Vec<Vec<u8>> = vec![vec![0], vec![2], vec![1, 1], cat(&[&[1u8, 0xff][..], &vec![9u8; 127]]), cat(&[&[1u8, 0x02, 0x02][..], &vec![9u8; 128]])];
+    gkrs.push(cat(&[&[1u8][..], &le(((16383u128 << 1) | 1) << 1, 2), &vec![9u8; 16383]]));
+    gkrs.push(cat(&[&[1u8][..], &le(((16384u128 << 1) | 1) << 2, 3), &vec![9u8; 16384]]));
+    for (aux, nq) in [(0u8, 1usize), (2, 2), (0, 2), (2, 1), (0, 0), (2, 3)] {
+        for (gi, g) in gkrs.iter().enumerate() {
+            if gi > 2 && nq != (if aux == 0 { 1 } else { 2 }) {
+                continue;
+            }
+            let mut b = cat(&[&ctx(aux, 28, 8), &[255u8][..], &blk(64, 2, 0x22)]);
+            for i in 0..nq {
+                b.extend(q(8 + i, 3));
+            }
+            b.extend(q(16, 0));
+            b.extend(ood(33, 1, 16));
+            b.extend(&fri);
+            b.extend(le(u64::MAX as u128, 8));
+            b.extend(g);
+            put(emit, "proof", b);
+        }
+    }
+    for (e, bl) in [(28u8, 8u8), (28, 16), (30, 2), (31, 2), (24, 128), (25, 128), (32, 2), (63, 2), (64, 2)] {
+        let mut b = cat(&[&ctx(0, e, bl), &[0u8][..], &blk(0, 2, 0)]);
+        b.extend(q(8, 1));
+        b.extend(q(8, 1));
+        b.extend(ood(0, 0, 0));
+        b.extend(cat(&[&[0u8][..], &blk(0, 2, 0), &[0u8][..]]));
+        b.extend(le(0, 8));
+        b.push(0);
+        put(emit, "proof", b);
+    }
+    // strings: every class of lead byte with boundary continuation bytes
+    for lead in [0x00u8, 0x7f, 0x80, 0xbf, 0xc0, 0xc1, 0xc2, 0xdf, 0xe0, 0xe1, 0xec, 0xed, 0xee, 0xef, 0xf0, 0xf1, 0xf3, 0xf4, 0xf5, 0xff] {
+        for second in [0x7fu8, 0x80, 0x8f, 0x90, 0x9f, 0xa0, 0xbf, 0xc0] {
+            for tail in [&[][..], &[0x80u8][..], &[0x80, 0x80][..], &[0xbf, 0xbf, 0x41][..], &[0x80, 0x7f][..]] {
+                let body = cat(&[&[lead, second][..], tail]);
+                let mut b = vec![((body.len() as u8) << 1) | 1];
+                b.extend(&body);
+                emit(format!("dec str {}", hex(&b)));
+                if quick && tail.len() == 3 {
+                    continue;
+                }
+                emit(format!("rstr {} {}", body.len(), hex(&body)));
+            }
+        }
+    }
+    for (n, have) in [(0usize, 0usize), (0, 3), (1, 0), (1, 1), (3, 2), (3, 3), (3, 4), (300, 299), (300, 300), (300, 301), (usize::MAX, 4)] {
+        emit(format!("rstr {} {}", n, hex(&vec![0x61u8; have])));
+    }
+}
+
+/// the wire form of maps and sets with the keys in every order and with duplicate keys (the writer never
+/// produces these: they are what another implementation or an adversary may send)
+fn gen_map_wire<K: Val, V: Val>(rng: &mut Rng, n: usize, emit0: &mut dyn FnMut(String)) {
+    // only types of the menu
+    let names = type_names();
+    let mut emit = |l: String| {
+        let ty = l.split(' ').nth(1).unwrap_or("").to_string();
+        if names.contains(&ty) {
+            emit0(l)
+        }
+    };
+    for i in 0..n {
+        let cnt = match i % 5 {
+            0 => 2,
+            1 => 3,
+            _ => rng.range(0, 9) as usize,
+        };
+        let mut entries: Vec<(String, String)> = (0..cnt).map(|_| (K::gen(rng, 6), V::gen(rng, 6))).collect();
+        // duplicates with different values, at both ends and adjacent
+        if cnt >= 2 {
+            match i % 4 {
+                0 => entries[cnt - 1].0 = entries[0].0.clone(),
+                1 => entries[1].0 = entries[0].0.clone(),
+                2 => entries.reverse(),
+                _ => {},
+            }
+        }
+        let mut ok = true;
+        let mut pairs = vec![];
+        for (k, v) in &entries {
+            let (k2, v2) = (k.clone(), v.clone());
+            match guarded(move || (K::parse(&mut P::new(&k2)), V::parse(&mut P::new(&v2)))) {
+                Ok(p) => pairs.push(p),
+                Err(_) => ok = false,
+            }
+        }
+        if !ok {
+            continue;
+        }
+        for order in 0..3 {
+            let mut b = vec![];
+            b.write_usize(pairs.len());
+            let idx: Vec<usize> = match order {
+                0 => (0..pairs.len()).collect(),
+                1 => (0..pairs.len()).rev().collect(),
+                _ => {
+                    let mut v: Vec<usize> = (0..pairs.len()).collect();
+                    for j in (1..v.len()).rev() {
+                        v.swap(j, rng.below(j as u64 + 1) as usize);
+                    }
+                    v
+                },
+            };
+            let mut keys_only = b.clone();
+            for j in idx {
+                pairs[j].0.write_into(&mut b);
+                pairs[j].1.write_into(&mut b);
+                pairs[j].0.write_into(&mut keys_only);
+            }
+            emit(format!("dec map({},{}) {}", K::ty(), V::ty(), hex(&b)));
+            emit(format!("dec set({}) {}", K::ty(), hex(&keys_only)));
+        }
+        // the text form with unsorted and duplicate keys goes through BTreeMap::insert
+        let text: Vec<String> = entries.iter().map(|(k, v)| format!("{}:{}", k, v)).collect();
+        emit(format!("enc map({},{}) {{{}}}", K::ty(), V::ty(), text.join(",")));
+        let keys: Vec<String> = entries.iter().map(|(k, _)| k.clone()).collect();
+        emit(format!("enc set({}) [{}]", K::ty(), keys.join(",")));
+    }
+}
+
+/// sequences of values of different types read from one reader, complete, cut short and with bytes left
+fn gen_seq(rng: &mut Rng, n: usize, emit: &mut dyn FnMut(String)) {
+    let names = type_names();
+    let light: Vec<&String> = names
+        .iter()
+        .filter(|t| !["queries", "oodframe", "friproof", "proof", "commitments"].iter().any(|h| t.contains(h)))
+        .collect();
+    for i in 0..n {
+        let k = rng.range(2, 6) as usize;
+        let mut tys = vec![];
+        let mut bytes = vec![];
+        let mut ends = vec![];
+        for _ in 0..k {
+            let t = (*rng.pick(&light)).clone();
+            let mut done = false;
+            for _ in 0..5 {
+                let text = dispatch_gen_text(&t, rng, if i % 7 == 0 { 400 } else { 12 });
+                if let Some(b) = dispatch_text_bytes(&t, &text) {
+                    bytes.extend(b);
+                    done = true;
+                    break;
+                }
+            }
+            if done {
+                ends.push(bytes.len());
+                tys.push(t);
+            }
+        }
+        if tys.is_empty() {
+            continue;
+        }
+        let tl = tys.join(";");
+        emit(format!("seq {} {}", tl, hex(&bytes)));
+        // cut inside a value, exactly between two values, one byte before / after a boundary
+        let e = *rng.pick(&ends);
+        for cut in [e, e.saturating_sub(1), (e + 1).min(bytes.len()), rng.below(bytes.len() as u64 + 1) as usize] {
+            emit(format!("seq {} {}", tl, hex(&bytes[..cut])));
+        }
+        let mut more = bytes.clone();
+        let extra = rng.range(1, 4) as usize;
+        more.extend(rng.bytes(extra));
+        emit(format!("seq {} {}", tl, hex(&more)));
+        if !bytes.is_empty() {
+            let mut m = bytes.clone();
+            let j = rng.below(m.len() as u64) as usize;
+            m[j] = *rng.pick(&[0u8, 1, 2, 127, 128, 255]);
+            if tys.iter().zip(0..).all(|_| true) && safe_seq(&tys, &m) {
+                emit(format!("seq {} {}", tl, hex(&m)));
+            }
+        }
+    }
+}
+
+/// no step of the sequence asks for a huge element count (see `Guard`)
+fn safe_seq(tys: &[String], input: &[u8]) -> bool {
+    let mut g = Guard { inner: SliceReader::new(input), huge: false };
+    for t in tys {
+        let r = guarded(|| dispatch_step(t, &mut g));
+        match r {
+            Ok(Some(Ok(_))) => {},
+            _ => break,
+        }
+    }
+    !g.huge
 }
 
 // ------------------------------------------------------------------------------------ Prop
@@ -2388,6 +3020,19 @@ impl Prop for C12 {
         let quick = tier == Tier::Quick;
         let per = default_n(tier, 24, 240, n);
         gen_boundaries(quick, emit);
+        gen_dec_boundaries(quick, emit);
+        {
+            let nm = if quick { 12 } else { 120 };
+            gen_map_wire::<u8, u8>(rng, nm, emit);
+            gen_map_wire::<u32, String>(rng, nm, emit);
+            gen_map_wire::<String, Vec<u16>>(rng, nm, emit);
+            gen_map_wire::<(u8, u8), Bool>(rng, nm, emit);
+            gen_map_wire::<Option<u8>, ()>(rng, nm, emit);
+            gen_map_wire::<Bytes, u8>(rng, nm, emit);
+            gen_map_wire::<usize, Option<u64>>(rng, nm, emit);
+            gen_map_wire::<u16, u16>(rng, nm, emit);
+            gen_seq(rng, if quick { 150 } else { 1500 }, emit);
+        }
         // the size encoding: every boundary 2^(7k) +- 1, 2^(8k) +- 1
         for v in int_bounds(64) {
             emit(format!("vint {}", v));
@@ -2492,6 +3137,8 @@ impl Prop for C12 {
             "enc" => dispatch_enc(a, b),
             "dec" => dispatch_dec(a, b),
             "vint" => run_vint(a),
+            "seq" => run_seq(a, b),
+            "rstr" => run_rstr(a, b),
             "qparse" => run_qparse(a),
             "oparse" => run_oparse(a),
             "cparse" => run_cparse(a),
@@ -2520,7 +3167,13 @@ impl Prop for C12 {
         "a deterministic sweep of every numeric guard of the constructors and decoders (each value at the smallest / largest accepted point and \
          just beyond it: ProofOptions parameters and the folding x remainder product, TraceInfo widths / random elements / lengths 2^3..2^63 / \
          metadata 65535, Context trace length x blowup around the 2^31 LDE limit for all fields, alone and nested in tuples and whole proofs, \
-         Commitments / OodFrame / FRI remainder byte limits, 254-256 rows, columns and node vectors, vint64 length prefixes), then \
+         Commitments / OodFrame / FRI remainder byte limits, 254-256 rows, columns and node vectors, vint64 length prefixes and element \
+         counts across 2^7 / 2^14 / 2^16 / 2^21 for every sequence implementation incl. zero-width elements), hand-assembled encodings around \
+         every guard of the decoders with consistent enclosing prefixes (tags, field elements at M-1 / M / M+1, every vint64 length class, \
+         TraceInfo / ProofOptions / Context bytes, 16- and 32-bit blocks below and above 255 / 65535 bytes, FRI layers > 65535 bytes, layer \
+         counts, whole proofs from parts, every UTF-8 lead / continuation class), each also one byte short and one byte long, every proper \
+         prefix of small encodings, maps / sets in wire form with keys in every order and duplicate keys, sequences of values on one reader \
+         (state after success and after failure compared between the byte sources), read_string / read_vec, then \
          values built through the public constructors from boundary-heavy descriptions (0, 1, 2^(7k)±1, 2^(8k)±1, 255/256 widths and counts, \
          65535/65536-byte metadata and commitment blocks, 254/255/256 rows, columns, node vectors, maximal FRI remainders, empty and nested \
          collections), encoded, decoded through SliceReader, Cursor and ReadAdapter (1-byte, straddling, whole, mixed chunkings), plus truncated / \
